@@ -25,11 +25,19 @@ import (
 type volTemplate struct {
 	pre, post string
 	word      bool
+	pad       int // > 0: the counter is written with exactly pad digits (fixed-width fields such as a 12-digit revision)
 }
 
 func (t volTemplate) at(i int) string {
 	if t.word {
 		return t.pre + "zz" + base26(i) + t.post
+	}
+	if t.pad > 0 {
+		d := strconv.Itoa(i + 1)
+		if len(d) < t.pad {
+			d = strings.Repeat("0", t.pad-len(d)) + d
+		}
+		return t.pre + d + t.post
 	}
 	return t.pre + strconv.Itoa(i+1) + t.post
 }
@@ -642,5 +650,63 @@ func digestFieldPairs(kept []eco.Ver) [][2]int {
 			out = append(out, pairs...)
 		}
 	}
+	return out
+}
+
+// c06Volume: totality under volume. V distinct well-formed versions per ecosystem (for golang two thirds of them distinct
+// pseudo-versions, whose recognition is the expensive path) go through NewVersion and, every 64th, through a range;
+// a panic is a violation. V follows size thresholds found as new literals in the sources (bytes budgets divided by a
+// typical length of 32).
+func c06Volume(c *core.Ctx, w *core.W, e *eco.Eco) []core.Violation {
+	V := c.Scale(400000, 2500000)
+	if thr := gen.DeltaThreshold(e.Name, 100000, uint64(c.Scale(100000000, 1000000000))); thr > 0 {
+		need := int(thr / 12) // a budget in bytes: half of the strings, ~35 bytes each, fill it after ~thr/17 entries
+		if thr < 5000000 {
+			need = int(thr * 12 / 10)
+		}
+		if need > V {
+			V = min(need, c.Scale(6000000, 40000000))
+			w.Count("volume_raised_above_new_source_literal:"+e.Name, int64(thr))
+		}
+	}
+	r := c.Rand("c06-volume", e.Name)
+	sent := &Pool{Eco: e}
+	seen := map[string]bool{}
+	for tries := 0; len(sent.Strs) < 40 && tries < 200; tries++ {
+		for _, s := range gen.Cluster(e.Name, r) {
+			if len(sent.Strs) < 40 && strings.TrimSpace(s) == s {
+				sent.Add(s, seen)
+			}
+		}
+	}
+	tpls := volTemplates(e, nil, sent.Strs, r, 2)
+	if e.Name == "golang" {
+		tpls = append(tpls, volTemplate{pre: "v1.10.1-0.20220620093000-", pad: 12}, volTemplate{pre: "v0.0.0-20240101120000-", pad: 12})
+	}
+	if len(tpls) == 0 {
+		return nil
+	}
+	var out []core.Violation
+	rg, _, _ := e.SafeNewRange(">=1.0.0")
+	for i := 0; i < V; i++ {
+		t := tpls[i%len(tpls)]
+		s := t.at(i / len(tpls))
+		v, _, pn := e.SafeNewVersion(s)
+		if pn != nil {
+			out = append(out, core.Violation{Eco: e.Name, Op: "NewVersion", Args: []string{s}, Rule: "panic", Got: pn.Value, Detail: "after " + itoa(i) + " distinct well-formed versions in this process: " + trunc(pn.Stack, 1200)})
+			if len(out) >= 2 {
+				break
+			}
+			continue
+		}
+		if v != nil && rg != nil && i%64 == 0 {
+			if _, pn := eco.SafeContains(rg, v); pn != nil {
+				out = append(out, core.Violation{Eco: e.Name, Op: "Contains", Args: []string{">=1.0.0", s}, Rule: "panic", Got: pn.Value, Detail: "after " + itoa(i) + " distinct versions: " + trunc(pn.Stack, 1200)})
+				break
+			}
+		}
+	}
+	w.Count("evaluations", int64(V))
+	w.Count("volume_distinct_versions_parsed:"+e.Name, int64(V))
 	return out
 }
